@@ -6,6 +6,7 @@ import AL.Impl.Api
 import AL.Properties.C11
 import AL.Properties.KernelDefs
 import AL.Spec.X86Families
+import AL.Spec.X86FamiliesExtra
 import AL.Impl.Faults
 import AL.Impl.Cli
 import AL.Impl.Debug
@@ -247,7 +248,7 @@ def main (args : List String) : IO Unit := do
   | ["enum", fam, level] =>
     -- quantifier domain of a C01–C05 family: one line per instance, "<assembly text>\t<expected decoding>"
     let out ← IO.getStdout
-    for it in AL.Spec.X86.family fam level.toNat! do
+    for it in AL.Spec.X86.family fam level.toNat! ++ (if fam == "c02" then AL.Spec.X86.famC02x else []) do
       out.putStrLn (it.text ++ "\t" ++ it.want.render)
   | _ =>
     let stdin ← IO.getStdin
